@@ -1242,6 +1242,11 @@ class Engine:
         if text == "begin_scope":
           gscopes.append((len(st.pc), []))
           continue
+        if text == "stop":
+          # the rest of the function is outside what this (partial, second) contract talks about
+          self.abstracted.add(f"body of {self.cur.qual} behind {label.split('/')[-1]}: not analysed under this "
+                              "contract, assumed to return normally")
+          raise TailAbstracted()
         if text == "end_scope":
           n0, keep = gscopes.pop()
           del st.pc[n0:]
